@@ -200,6 +200,11 @@ fn main() {
             let ids: Vec<String> = args[2..].iter().filter(|a| a.starts_with('C')).cloned().collect();
             std::process::exit(engine::selftest_main(&ids, runs, env_seed));
         }
+        "c03-warm" => {
+            let mut case: model::Case = serde_json::from_slice(&std::fs::read(&args[2]).unwrap()).unwrap();
+            case.program.reanalyze();
+            println!("{}", props::c03::warm_child(&case));
+        }
         "builds" => {
             if let Some(def) = args.get(2).and_then(|id| props::find(id)) {
                 for b in def.sub_builds {
